@@ -254,3 +254,56 @@ func HarnessC11AfterFailure() {
 	out, rerr := hxReadAll(rd)
 	svAssert(rerr == nil && len(out) == len(w1.buf) && hxEqBytes(out, w1.buf), "C11 Reader output after a failed render differs")
 }
+
+// Caller-chosen boundary (WithBoundary / SetBoundary): whatever the shape,
+// every render produces the bytes of the first one.
+func HarnessC11Boundary() {
+	p := 1 + svPick("parts", 2)
+	a := svPick("atts", 2)
+	e := svPick("embeds", 2)
+	menc := hxEnc(svPick("menc", 3))
+	how := svPick("boundary-set-by", 2) // 0 WithBoundary, 1 SetBoundary
+	var m *Msg
+	if how == 0 {
+		m = NewMsg(WithEncoding(menc), WithBoundary("caller-chosen-boundary"))
+	} else {
+		m = NewMsg(WithEncoding(menc))
+		m.SetBoundary("caller-chosen-boundary")
+	}
+	_ = m.From("a@b.c")
+	_ = m.To("d@e.f")
+	m.Subject("repeat with a boundary")
+	for i := 0; i < p; i++ {
+		if i == 0 {
+			m.SetBodyString(TypeTextPlain, hxPartText[0])
+		} else {
+			m.AddAlternativeString(hxPartType[i], hxPartText[i])
+		}
+	}
+	for i := 0; i < e; i++ {
+		_ = m.EmbedReader("emb.png", &hxRd{data: []byte(hxFileData[0])})
+	}
+	for i := 0; i < a; i++ {
+		_ = m.AttachReader("att.txt", &hxRd{data: []byte(hxFileData[1])})
+	}
+	w1 := &hxRecW{}
+	if _, err := m.WriteTo(w1); err != nil {
+		svAssert(false, "C11 first render failed")
+		return
+	}
+	svReach("rendered")
+	w2 := &hxRecW{}
+	if _, err := m.WriteTo(w2); err != nil {
+		svAssert(false, "C11 second render failed")
+		return
+	}
+	svAssert(len(w2.buf) == len(w1.buf) && hxEqBytes(w2.buf, w1.buf), "C11 [custom boundary] second WriteTo differs from the first render")
+	out, rerr := hxReadAll(m.NewReader())
+	svAssert(rerr == nil && len(out) == len(w1.buf) && hxEqBytes(out, w1.buf), "C11 [custom boundary] Reader output differs from the first render")
+	w3 := &hxRecW{}
+	if _, err := m.Write(w3); err != nil {
+		svAssert(false, "C11 Write failed")
+		return
+	}
+	svAssert(len(w3.buf) == len(w1.buf) && hxEqBytes(w3.buf, w1.buf), "C11 [custom boundary] Write differs from the first render")
+}
